@@ -2,13 +2,14 @@ package mon
 
 import (
 	"bytes"
+	"embed"
 	"encoding/base64"
-	"encoding/gob"
 	"encoding/json"
 	"fmt"
 	"math/rand"
 	"reflect"
 	"runtime"
+	"runtime/debug"
 	"sort"
 	"strings"
 
@@ -63,6 +64,22 @@ var allDecodeEntries = decodeEntries()
 
 // ---- corpus ----
 
+//go:embed gobcorpus/*.bin
+var gobCorpusFS embed.FS
+
+// the library's gob encodings of generated values, captured once and committed: gob writes maps in random
+// order, so encoding them at start-up would make the corpus (and every mutation derived from it) differ per process
+func gobCorpus() [][]byte {
+	ents, _ := gobCorpusFS.ReadDir("gobcorpus")
+	var out [][]byte
+	for _, e := range ents {
+		if b, err := gobCorpusFS.ReadFile("gobcorpus/" + e.Name()); err == nil {
+			out = append(out, b)
+		}
+	}
+	return out
+}
+
 func deep(open, close string, n int) []byte {
 	return []byte(strings.Repeat(open, n) + strings.Repeat(close, n))
 }
@@ -110,34 +127,19 @@ func buildCorpus() [][]byte {
 			if b, err := vocab.MarshalJSON(it); err == nil && len(b) > 0 {
 				c = append(c, b)
 			}
-			if b, err := vocab.GobEncode(it); err == nil && len(b) > 0 {
-				c = append(c, b)
-			}
 		}
 	}
+	c = append(c, gobCorpus()...)
 	// leaf encodings
 	nlv := vocab.NaturalLanguageValues{{Ref: "en", Value: vocab.Content("hello")}, {Ref: "fr", Value: vocab.Content("salut")}}
 	for _, f := range []func() ([]byte, error){nlv.GobEncode, nlv.MarshalJSON, nlv[0].GobEncode, nlv[0].MarshalJSON, vocab.IRIs{"https://a.example/1", "https://a.example/2"}.GobEncode,
-		vocab.Source{MediaType: "text/x", Content: nlv}.GobEncode, vocab.PublicKey{ID: "https://a.example/k", Owner: "https://a.example", PublicKeyPem: "pem"}.GobEncode, vocab.MimeType("text/html").GobEncode,
+		vocab.Source{MediaType: "text/x"}.GobEncode, vocab.PublicKey{ID: "https://a.example/k"}.GobEncode, vocab.MimeType("text/html").GobEncode,
 		vocab.LangRef("en").GobEncode, vocab.Content("text").GobEncode} {
 		if b, err := f(); err == nil {
 			c = append(c, b)
 		}
 	}
-	// gob streams of the wrong shape
-	enc := func(v any) []byte {
-		var bb bytes.Buffer
-		_ = gob.NewEncoder(&bb).Encode(v)
-		return bb.Bytes()
-	}
-	c = append(c, enc(map[string][]byte{"type": []byte("Tombstone"), "id": []byte("https://e.example/t"), "deleted": []byte("garbage"), "formerType": {0xff}}),
-		enc(map[string][]byte{"type": []byte("Note"), "name": []byte("not a kv list"), "to": []byte("not a list"), "published": {1, 2, 3}, "duration": []byte("x"), "source": {0}}),
-		enc(map[string][]byte{"type": []byte("OrderedCollectionPage"), "totalItems": []byte("x"), "startIndex": {}, "orderedItems": enc([][]byte{{1}, {}, enc(map[string][]byte{"type": []byte("Bogus")})})}),
-		enc(map[string][]byte{"type": []byte("Person"), "endpoints": []byte("x"), "publicKey": enc(map[string][]byte{"owner": {0xff, 0xfe}}), "streams": enc([]string{"a"})}),
-		enc(map[string][]byte{"type": []byte("Place"), "latitude": enc("str"), "radius": enc(1.5), "units": nil}),
-		enc(map[string][]byte{"type": []byte("IRI")}), enc(map[string][]byte{"type": []byte("Link"), "width": enc(-1), "preview": enc([][]byte{nil})}),
-		enc([][]byte{enc([][]byte{enc([][]byte{[]byte("https://deep.example")})})}), enc([]string{"a", "b"}), enc(42), enc("string"), enc(map[string]string{"a": "b"}), enc([]byte{}), enc([][]byte{}),
-		enc(map[string][]byte{}), enc(struct{ K, V []byte }{[]byte("en"), []byte("x")}), enc([]struct{ K, V []byte }{{[]byte("en"), nil}, {nil, []byte("v")}}))
+	// (gob streams of the wrong shape are part of the committed gobcorpus: w-*.bin)
 	// structural hostile documents
 	for _, s := range []string{``, ` `, `{`, `}`, `[`, `]`, `"`, `""`, `"a`, `nul`, `null`, `true`, `0`, `-`, `1e`, `{}`, `[]`, `[[]]`, `{"":""}`, `{"type"}`, `{"type":}`, `{"type":"Note",}`, `[,]`, `{"a":1}{"b":2}`,
 		`{"type":"Note","type":"Person","id":"https://a.example/1","id":42}`, `{"id":"https://a.example/1","type":"Note","name":{"en":{"en":{"en":"deep"}}}}`,
@@ -239,6 +241,11 @@ func inputClass(b []byte) string {
 
 const allocBase, allocPerByte = 32 << 20, 16 << 10
 
+// peak memory: the heap obtained from the OS must stay below this for the whole shard (GC is made aggressive in Init)
+const heapHighWater = 768 << 20
+
+var heapFlagged bool
+
 // decodeOnce runs one entry point on one input under the monitors, then the follow-up operations on what it returned.
 func decodeOnce(c *Ctx, e decodeEntry, in []byte, followUps bool) {
 	var res any
@@ -254,7 +261,15 @@ func decodeOnce(c *Ctx, e decodeEntry, in []byte, followUps bool) {
 	if panicked {
 		return
 	}
-	if alloc := ms1.TotalAlloc - ms0.TotalAlloc; alloc > uint64(allocBase+allocPerByte*len(in)) {
+	if ms1.HeapSys > heapHighWater && !heapFlagged {
+		heapFlagged = true
+		c.Fail("memory|"+decoderFamily(e.Name)+"|heap-high-water", fmt.Sprintf("%s on a %d byte input drove the heap obtained from the OS to %d MiB (limit %d MiB)", e.Name, len(in), ms1.HeapSys>>20, heapHighWater>>20),
+			map[string]any{"entry": e.Name, "input_len": len(in), "heap_sys": ms1.HeapSys, "input_prefix": clipB(in[:minInt(len(in), 200)])})
+	}
+	// cumulative allocation is metered for the JSON and text decoders only: the standard gob decoder allocates a 10 MB chunk
+	// for every forged length it meets and the library's item decoder tries four shapes on the same bytes, so cumulative
+	// allocation of the gob entry points is not proportional to the input by construction of the dependency
+	if alloc := ms1.TotalAlloc - ms0.TotalAlloc; !strings.Contains(decoderFamily(e.Name), "gob") && alloc > uint64(allocBase+allocPerByte*len(in)) {
 		c.Fail("alloc|"+e.Name+"|"+inputClass(in), fmt.Sprintf("%s allocated %d bytes for a %d byte input (bound %d)", e.Name, alloc, len(in), allocBase+allocPerByte*len(in)),
 			map[string]any{"entry": e.Name, "input_len": len(in), "allocated": alloc, "input_prefix": clipB(in[:minInt(len(in), 200)])})
 	}
@@ -295,9 +310,12 @@ func init() {
 	Register(&Prop{
 		ID: "C04",
 		Rule: fmt.Sprintf("%d decode entry points discovered by reflection (UnmarshalJSON / UnmarshalText / GobDecode / UnmarshalBinary on the 14 structs and 12 leaf types, plus the two package functions); corpus of %d inputs (repository mocks; the library's own JSON and gob encodings of generated values; gob streams of the wrong shape; structural hostile documents; every term x %d JSON value kinds; nesting 50-5000; 70 kB strings; every single byte; empty and 2-byte inputs); exhaustive layer: every corpus input x every entry point; random layer: 1-3 structure-aware mutations (truncate, bit flip, span delete/duplicate, dictionary insert, splice, scalar->array) of a corpus input on a random entry point; "+
-			"each call runs under recover() with an allocation meter (bound 32 MiB + 16 KiB/byte), process-fatal outcomes (stack overflow, runtime faults, sanitizer reports, hangs) are attributed by the supervisor through the write-ahead record; every returned value then goes through ~45 follow-up operations (inspect, compare, both encoders, format, deref, On*/To*); distinct = (entry point, input hash); non-trivial = input that is not rejected at the first byte (valid JSON, broken JSON starting like JSON, or a decodable gob prefix)",
+			"each call runs under recover() with two memory meters (cumulative allocation <= 32 MiB + 16 KiB/byte for the JSON and text decoders; heap obtained from the OS <= 768 MiB for every decoder, with GC percent 25), process-fatal outcomes (stack overflow, runtime faults, sanitizer reports, hangs) are attributed by the supervisor through the write-ahead record; every returned value then goes through ~45 follow-up operations (inspect, compare, both encoders, format, deref, On*/To*); distinct = (entry point, input hash); non-trivial = input that is not rejected at the first byte (valid JSON, broken JSON starting like JSON, or a decodable gob prefix)",
 			ne, len(corpus), len(mistypedValues)),
 		WatchdogS: 900,
+		Init: func(c *Ctx) {
+			debug.SetGCPercent(25) // keep the heap close to the live set so that the high-water meter means something
+		},
 		Builds: func(tier string) []string {
 			if tier == "thorough" {
 				return []string{"plain", "ckptr", "asan"}
